@@ -36,7 +36,7 @@ SCOPES = [{0: 1, -1: 1}, {0: 1, -1: 1, -2: 1}, {-1: 1}, {0: 1, -1: 1, 3: 3}, Non
 MODES = ['enc0-256', 'enc0-128', 'kw']
 ALTERATION_KINDS = ['pri-flags', 'pri-dest', 'pri-src', 'pri-time', 'pri-seq', 'pri-lifetime', 'tgt-data', 'tgt-flags',
                     'tgt-type', 'tgt-num', 'tgt-crc-type', 'other-data', 'other-flags', 'sec-source', 'sec-scope',
-                    'sec-addl-protected', 'res-protected', 'res-kid', 'res-iv', 'wrong-key', 'no-key', 'sec-scope-retype', 'sec-scope-drop', 'res-attach']
+                    'sec-addl-protected', 'res-protected', 'res-kid', 'res-iv', 'wrong-key', 'no-key', 'sec-scope-retype', 'sec-scope-drop', 'res-attach', 'recipient-extra']
 
 
 def prepare():
